@@ -170,6 +170,20 @@ def gen_case(rng, quick):
         rn = len_of(c["col"]) if rng.random() < 0.9 else len_of(c["col"]) + 1
         c["right"] = gen_fsl(rng, regime, rd, rn)
         c["right"].pop("slice2", None)
+    # a quarter of the cases are scaled, as a whole and exactly (x 2^-14), to small magnitudes: |a||b| is then far below
+    # f32::EPSILON although no vector is zero, so a zero-vector guard written as a threshold misfires (added after seeded change
+    # seeded/C38). Scaling by a power of two keeps every f32 operation of the 'exact' regime exact. Literals with integer
+    # elements cannot be scaled and are left alone.
+    if rng.random() < 0.25 and not ("lit" in c and any(k not in ("f32", "f64") for k in c["lit"]["kinds"])):
+        k = 2.0 ** -14
+        c["col"]["vals"] = [v * k for v in c["col"]["vals"]]
+        if "query" in c:
+            c["query"] = [v * k for v in c["query"]]
+        if "right" in c:
+            c["right"]["vals"] = [v * k for v in c["right"]["vals"]]
+        if "lit" in c:
+            c["lit"]["vals"] = [v * k for v in c["lit"]["vals"]]
+        c["tiny"] = True
     return c
 
 
